@@ -235,6 +235,7 @@ func VerifHarness_C01_O5() {
 		ev := NewEvent(nil, nil, nil, []string{"", ""}, keysFromPublic(key), i)
 		ev.Signature = verifSignature(key, []byte(fmt.Sprintf("digest%d", i)), true)
 		ev.topologicalIndex = verifNondetInt(fmt.Sprintf("topo%d", i))
+		ev.Body.Timestamp = verifNondetInt64(fmt.Sprintf("claimedTime%d", i)) // wall-clock claims must not influence the order
 		lts[i] = verifNondetInt(fmt.Sprintf("lt%d", i))
 		evs = append(evs, &FrameEvent{Core: ev, LamportTimestamp: lts[i], Round: verifNondetInt(fmt.Sprintf("round%d", i)), Witness: verifNondetBool(fmt.Sprintf("wit%d", i))})
 	}
@@ -438,3 +439,9 @@ func VerifHarness_C01_O2b() {
 	}
 	verifReach("end")
 }
+
+
+// O7: the fields of a block derived from a decided round depend only on the
+// famous witnesses (same obligation as C18/O2: a timestamp computed from all
+// known witnesses would differ between partial views).
+func VerifHarness_C01_O7() { VerifHarness_C18_O2() }
